@@ -17,7 +17,11 @@ pub fn mod_(
     let y = quantity_arg!(args);
 
     let x_value = x.unsafe_value().to_f64();
-    let y_value = y.convert_to(x.unit()).unwrap().unsafe_value().to_f64();
+    let y_value = y
+        .convert_to(x.unit())
+        .map_err(|e| Box::new(RuntimeErrorKind::QuantityError(e)))?
+        .unsafe_value()
+        .to_f64();
 
     return_quantity!(x_value.rem_euclid(y_value), x.unit().clone())
 }
